@@ -18,6 +18,10 @@ class Undecided(Exception):
     pass
 
 
+class NeedDecision(Exception):
+    """a value-dependent branch was reached and the decision string is exhausted: the driver forks"""
+
+
 # ---- words ---------------------------------------------------------------------------------------
 # factor kinds:
 #   ('u', name, T, C, real)      unitary symbol, transposed / conjugated flags
@@ -140,6 +144,10 @@ class Interp:
         self.functor_fn = functor_fn
         self.max_depth = max_depth
         self.functions_seen = []
+        self.decisions = []        # outcomes of value-dependent conditions, in the order they are met (path string)
+        self.ndec = 0
+        self.path = []             # readable description of the path
+        self.base_sign = {}        # base vector -> 'nonneg' / 'nonpos' (path assumptions)
 
     def new_loc(self, v):
         self.nloc += 1
@@ -208,6 +216,15 @@ class Interp:
             return False
         if v[0] == "bool":
             return v[1]
+        if v[0] == "datacond":
+            if self.ndec >= len(self.decisions):
+                raise NeedDecision()
+            truth = self.decisions[self.ndec]
+            self.ndec += 1
+            self.path.append("%s%s @%s" % ("" if truth else "not ", v[1], n.get("l")))
+            if truth and v[2] is not None:
+                self.base_sign[v[2][0]] = v[2][1]
+            return truth
         raise Undecided("%s:%s: condition %s is not a null test or a compile-time constant" % (f["file"], n.get("l"), n0.get("k")))
 
     def construct(self, d, env, depth, f):
@@ -328,6 +345,8 @@ class Interp:
             a = self.ev(n["c"][0], env, depth, f)
             if a[0] == "pdata":
                 return a
+        if k == "BinaryOperator" and n.get("op") in ("<", "<=", ">", ">="):
+            return self.data_condition(n, env, depth, f)
         if k == "BinaryOperator" and n.get("op") == "=":
             # scalar stores (error bounds, INFO): no effect on the decomposition outputs
             lhs = self.ev(n["c"][0], env, depth, f)
@@ -339,6 +358,44 @@ class Interp:
         if k == "BinaryOperator":
             return ("opaque", "scalar expression")
         raise Undecided("%s:%s: expression kind %s is not modelled" % (f["file"], n.get("l"), k))
+
+    def data_condition(self, n, env, depth, f):
+        """a comparison of run-time values: the branch is explored both ways; `v[0] >= 0` / `v[last] <= 0` on a vector known to
+        be sorted by value additionally tells the sign of all its entries on the true branch"""
+        l, r = strip_all(n["c"][0]), strip_all(n["c"][1])
+        op = n.get("op")
+        txt = "value comparison %s" % op
+        info = None
+
+        def elem(x):
+            if x is not None and x.get("k") == "CXXOperatorCallExpr" and x.get("op") in ("[]", "()") and len(x.get("c", [])) == 3:
+                try:
+                    o = self.ev(x["c"][1], env, depth, f)
+                except Undecided:
+                    return None
+                idx = strip_all(x["c"][2])
+                iv = idx.get("iv", idx.get("v")) if idx is not None else None
+                if o[0] == "loc" and self.store[o[1]][0] == "vec" and iv is not None:
+                    m = re.search(r"Eigen::Array<[^,]+,\s*(\d+)", str(strip_all(x["c"][1]).get("t") or ""))
+                    return self.store[o[1]][1], int(iv), int(m.group(1)) if m else None
+            return None
+
+        def zero(x):
+            return x is not None and x.get("k") in ("IntegerLiteral", "FloatingLiteral") and float(x.get("v", x.get("s", 1)) or 1) == 0.0
+
+        e = elem(l)
+        if e is not None and zero(r):
+            v, i, nlen = e
+            txt = "%s[%d] %s 0" % (v.base, i, op)
+            if not v.fn and v.order is not None and v.order[1] == ():
+                first, last = (i == 0), (nlen is not None and i == nlen - 1)
+                lo_end = first if v.order[0] == "asc" else last      # index of the smallest entry
+                hi_end = last if v.order[0] == "asc" else first
+                if op in (">=", ">") and lo_end:
+                    info = (v.base, "nonneg")
+                if op in ("<=", "<") and hi_end:
+                    info = (v.base, "nonpos")
+        return ("datacond", txt, info)
 
     def obj_of(self, n, env, depth, f):
         me = n["c"][0]
@@ -428,7 +485,12 @@ class Interp:
             if name == "transpose":
                 return ("tview", o[1]) if o[0] == "loc" else ("vec", v)
             if name in ("abs", "cwiseAbs"):
-                keep = v.order if (v.nonneg) else None
+                sg = "nonneg" if v.nonneg else (self.base_sign.get(v.base) if not v.fn else None)
+                keep = None
+                if v.order is not None and sg == "nonneg":
+                    keep = v.order
+                elif v.order is not None and sg == "nonpos":
+                    keep = ("asc" if v.order[0] == "desc" else "desc", v.order[1])
                 return ("vec", Vec(v.base, v.fn + ("abs",), v.perms, keep, True))
             if name == "unaryExpr":
                 fu = self.ev(args[0], env, depth, f)
@@ -457,7 +519,15 @@ class Interp:
                 return ("mat", w_conj(w))
             if name in ("eval", "cast", "derived", "matrix", "template cast"):
                 return ("mat", w)
+            if name in ("colwise", "rowwise"):
+                return ("vwise", name, w)
             raise Undecided("%s: matrix method %s" % (where, name))
+        if val[0] == "vwise":
+            if name == "reverse":
+                # colwise().reverse() reverses every column (= permutes the rows), rowwise().reverse() permutes the columns
+                rev = ("p", "REV", False)
+                return ("mat", (rev,) + val[2]) if val[1] == "colwise" else ("mat", val[2] + (rev,))
+            raise Undecided("%s: %s().%s" % (where, val[1], name))
         if val[0] in ("opaque", "uninit"):
             # error-bound arrays: fill / reverseInPlace / operator/= have no effect on the decomposition
             return ("opaque", "method " + str(name))
